@@ -28,11 +28,11 @@ Section Fusion.
   Fixpoint wsum (ts : list N) (gs : list N) : N :=
     match ts, gs with t :: ts', g :: gs' => nadd (nmul t g) (wsum ts' gs') | _, _ => n0 end.
 
-  (* category_choice with skip_channels: a skipped channel contributes activation 1 *)
+  (* category_choice with skip_channels: a skipped channel contributes nothing (activation 0; /repo fix ee23ec6) *)
   Definition fusion_choice_skip (skip : list nat) (Ws : list (list N)) (x w : list N) : option N :=
     ts <- omapi 0 (fun k Kp =>
             let '(K, (p, pw)) := Kp in
-            if existsb (Nat.eqb k) skip then Some n1
+            if existsb (Nat.eqb k) skip then Some n0
             else k_choice K (chanW pw Ws) (chan p x) (chan pw w)) (combine mods pos) ;;
     (* sum([a * gamma_k]) starts from 0 and adds left to right *)
     Some (fold_left (fun acc tg => nadd acc (nmul (fst tg) (snd tg))) (combine ts gammas) n0).
